@@ -97,7 +97,7 @@ def gen_state_op(rnd):
         op["run"] = "typed-" + op["run"]
         if k == "st_set_state":
             op["f"] = {"count": rnd.randint(0, 9), "name": rnd.choice(["q", "w"])}
-            op["cls"] = rnd.choice(["Child", "Parent"])
+            op["cls"] = rnd.choice(["Child", "Parent", "Parent", "Unrelated"])  # Unrelated: set_state must refuse it (raises mid-operation)
         if k == "st_get":
             op["p"] = rnd.choice(["count", "extra", "meta.k", "nope"])
         if k == "st_edit":
@@ -318,7 +318,12 @@ async def exec_op(store, op):
         return [type(s).__name__, s.model_dump() if op.get("typed") else dict(s.items())]
     if k == "st_set_state":
         if op.get("typed"):
-            await ss.set_state((Child if op["cls"] == "Child" else Parent)(**op["f"]))
+            if op["cls"] == "Unrelated":
+                from vf.c19_models import Unrelated
+
+                await ss.set_state(Unrelated(x=op["f"]["count"]))
+            else:
+                await ss.set_state((Child if op["cls"] == "Child" else Parent)(**op["f"]))
         else:
             await ss.set_state(DictState(**copy.deepcopy(op["f"])))
         return None
